@@ -365,13 +365,28 @@ fn rendezvous(ctx: &mut Ctx, case: u64, rng: &mut Rng, nthreads: usize) {
         want: u64,
         held: AtomicU64,
         gate_timeouts: AtomicU64,
+        switchers: AtomicU64,
+        switch_aligned: AtomicU64,
     }
-    let gate = Arc::new(Gate { armed: AtomicBool::new(false), waiters: AtomicU64::new(0), want: nthreads as u64, held: AtomicU64::new(0), gate_timeouts: AtomicU64::new(0) });
+    let gate = Arc::new(Gate { armed: AtomicBool::new(false), waiters: AtomicU64::new(0), want: nthreads as u64, held: AtomicU64::new(0), gate_timeouts: AtomicU64::new(0), switchers: AtomicU64::new(0), switch_aligned: AtomicU64::new(0) });
     {
         let g = Arc::clone(&gate);
         jbk::verif_hooks::set_hook(Some(Arc::new(move |name, _a, _b| match name {
             "sv_wait" => {
                 g.waiters.fetch_add(1, Ordering::SeqCst);
+            }
+            "plain_switch" => {
+                // all readers enter the raw→decoded switch of the fresh cluster together
+                let n = g.switchers.fetch_add(1, Ordering::SeqCst) + 1;
+                if n <= g.want {
+                    let t0 = std::time::Instant::now();
+                    while g.switchers.load(Ordering::SeqCst) < g.want && t0.elapsed() < std::time::Duration::from_millis(40) {
+                        std::hint::spin_loop();
+                    }
+                    if g.switchers.load(Ordering::SeqCst) >= g.want {
+                        g.switch_aligned.fetch_add(1, Ordering::SeqCst);
+                    }
+                }
             }
             "sv_written" => {
                 if g.armed.swap(false, Ordering::SeqCst) {
@@ -409,6 +424,7 @@ fn rendezvous(ctx: &mut Ctx, case: u64, rng: &mut Rng, nthreads: usize) {
             None => continue,
         };
         gate.waiters.store(0, Ordering::SeqCst);
+        gate.switchers.store(0, Ordering::SeqCst);
         gate.armed.store(true, Ordering::SeqCst);
         let barrier = Arc::new(std::sync::Barrier::new(nthreads));
         let (tx, rx) = std::sync::mpsc::channel::<(usize, Result<bool, String>)>();
@@ -458,6 +474,7 @@ fn rendezvous(ctx: &mut Ctx, case: u64, rng: &mut Rng, nthreads: usize) {
     ctx.add("forced_schedule_clusters", clusters_done);
     ctx.add("forced_schedule_decoder_held", gate.held.load(Ordering::SeqCst));
     ctx.add("forced_schedule_gate_timeouts", gate.gate_timeouts.load(Ordering::SeqCst));
+    ctx.add("forced_schedule_switch_aligned_threads", gate.switch_aligned.load(Ordering::SeqCst));
     ctx.count(&format!("forced_schedule_threads:{}", nthreads));
     ctx.sample(format!("forced schedule: {} threads blocked on the end of each of {} {} clusters before the decoder's first publish; decoder held {} times", nthreads, nclusters, comp.name(), gate.held.load(Ordering::SeqCst)));
     ctx.case_done(fnv(format!("rv{}{}", case, nthreads).as_bytes()), clusters_done > 0);
